@@ -65,24 +65,27 @@ CHECKS = {
          "Random hostile request sequences over the whole repo-level vocabulary (incl. RPC-mirrored delete/rename) with duplicate / malformed / foreign arguments; after every request the server's own JSON is checked for single root, acyclicity, mirrored links, unique UUIDs and version ids, committed parents, linear named branches, and rejected requests are checked to leave graph, heads and uuid resolution untouched.",
          "Branch-head and uuid resolution are observed through a 'whoami' key of a keyvalue instance; only newly introduced conditions are attributed to a request; repeated merge parents (a mirrored multi-edge) are counted as observation, not violation.", "3/C07"),
 }
-# sentences appended to the level text: layers added in the second round (see DESIGN.md sections 0.2b and 8)
+# sentences appended to the level text: layers added in the second and third round (see DESIGN.md sections 0.2b and 8)
 ADDENDA = {
  "C02": "Stability histories include neuronjson schema documents and, every second history, a workload restricted to two or three data types; the gate differential also sends every catalogued mutation with a lower-case (thorough: title-case) HTTP method; a directed history runs POST resolve over several data instances and conflict patterns and audits that no write lands in a committed parent.",
- "C03": "Every second history is a short-burst, few-type history with two to four restarts; two directed histories move the master head off its line of versions (newversion on a merge node; merge with the head line as first or as second parent); neuronjson body ids have 1-5 digits, key lists are compared in served order and range reads are part of the snapshot; admin steps create and delete side repos.",
- "C04": "One workload consists of admin steps (instance create / rename / delete, side-repo create / delete). Query lists of the snapshots are frozen by a first census pass; a sample of crash points is followed by a second crash at every write of the recovery start-up, each started from a copy of the crashed directory; the two zero-length-memtable states Badger's own file handling can leave are planted and must be recovered from.",
- "C05": "A bulk phase deletes ranges of exactly M of N keys for (N, M) around multiples of the store's 1000-key delete batch.",
- "C06": "Two scenarios hand a name over (re-creation, rename of another instance) while the old instance's asynchronous wipe is held open by the wrapping engine.",
- "C07": "Caller-assigned uuids include over-long hexadecimal strings and an existing uuid extended by hex digits (prefix ambiguity).",
- "C08": "Every second sequence restarts the server before the final sweep and sweeps leaves first; some intermediate versions are committed without ever being read or written; every fourth sequence is a scripted remap chain (the same supervoxels re-mapped in three successive versions) ending in a restart.",
+ "C03": "Every second history is a short-burst, few-type history with two to four restarts; two directed histories move the master head off its line of versions (newversion on a merge node; merge with the head line as first or as second parent); neuronjson body ids have 1-5 digits, key lists are compared in served order and range reads are part of the snapshot; admin steps create and delete side repos. One labelmap step in three of the workload is followed by a GET history of a body (the request that reads a version's mutation log while it is open for appending).",
+ "C04": "One workload consists of admin steps (instance create / rename / delete, side-repo create / delete). Query lists of the snapshots are frozen by a first census pass; a sample of crash points is followed by a second crash at every write of the recovery start-up, each started from a copy of the crashed directory; the two zero-length-memtable states Badger's own file handling can leave are planted and must be recovered from. A labelmap-only workload with history reads is crashed at every write; after every recovery the server does new acknowledged work (repo, instance, write, commit, new version), is restarted once more, and everything readable after the recovery is read again.",
+ "C05": "A bulk phase deletes ranges of exactly M of N keys for (N, M) around multiples of the store's 1000-key delete batch. The key universe includes names beyond the Basic Multilingual Plane (sorting after U+FFFF).",
+ "C06": "Two scenarios hand a name over (re-creation, rename of another instance) while the old instance's asynchronous wipe is held open by the wrapping engine. Labelmap instances (same body ids in every instance) take part in the histories, one worker configuration enables the label index cache and restarts once; six scripted shapes create versions on both sides of a restart and read every (instance, key, version) triple back.",
+ "C07": "Caller-assigned uuids include over-long hexadecimal strings and an existing uuid extended by hex digits (prefix ambiguity). Every second sequence restarts the server between requests; branch names include names that differ from master or an existing branch only by surrounding white space.",
+ "C08": "Every second sequence restarts the server before the final sweep and sweeps leaves first; some intermediate versions are committed without ever being read or written; every fourth sequence is a scripted remap chain (the same supervoxels re-mapped in three successive versions) ending in a restart. The scripted chain continues with namesake steps (a body loses the supervoxel it is named after, then is renumbered).",
  "C10": "World-split cases cut one sparse volume over several blocks at negative block coordinates with dvid.RLEs.Partition and compare the per-block splits with the voxel-wise split of the world.",
- "C11": "Version races run on master parents, on committed named-branch parents (newversion vs branch <own name>) and with one new branch name on different parents; every second register history runs at a child version whose parent holds the keys; concurrent re-posts of one annotation element with different tag sets must leave every tag view agreeing with the stored tags.",
- "C15": "A sequence phase serialises values of nearly equal sizes back to back (state carried between calls). A stored layer inspects what keyvalue instances of every Compression x Checksum setting physically store per write route (envelope checksum kind, round trip, altered stored bytes read back over HTTP).",
- "C19": "Full copies are also requested at versions that deleted keys written again later; every fourth history copies without repeating the source's settings; every second history restarts the server after the copies and compares every copy again.",
+ "C11": "Version races run on master parents, on committed named-branch parents (newversion vs branch <own name>) and with one new branch name on different parents; every second register history runs at a child version whose parent holds the keys; concurrent re-posts of one annotation element with different tag sets must leave every tag view agreeing with the stored tags. One round issues POST blocks together with element edits of the same block.",
+ "C15": "A sequence phase serialises values of nearly equal sizes back to back (state carried between calls). A stored layer inspects what keyvalue instances of every Compression x Checksum setting physically store per write route (envelope checksum kind, round trip, altered stored bytes read back over HTTP). The probe keeps earlier deserialisation results and re-compares them after every later call.",
+ "C19": "Full copies are also requested at versions that deleted keys written again later; every fourth history copies without repeating the source's settings; every second history restarts the server after the copies and compares every copy again. Every second history gives the image source a non-default background and creates two keyvalue sources back to back.",
  "C01": "Every modelled key is also read through the range path (keyrange over [key,key] and [0,key]) and compared with the model.",
  "C09": "Blocks with one axis at the largest legal extent (1024 voxels) and just below it go through the same round trips.",
- "C12": "A continuous-pressure phase (one reserving client against four POST maxlabel clients looping without barriers, in-process) checks that reserved label ranges never overlap or go backwards.",
+ "C12": "A continuous-pressure phase (one reserving client against four POST maxlabel clients looping without barriers, in-process) checks that reserved label ranges never overlap or go backwards. Three scenarios (clean / abrupt / SIGKILL restarts) issue more than one reservation stride of mutation ids in two repositories whose repo ids differ from their root version ids.",
  "C17": "One write in five carries all-background blocks over existing data.",
- "C20": "The model-based mixed workload (well-formed by construction) runs under the same panic / liveness monitors; scenario probes replay well-formed request sequences that once hung or panicked; hostile generation includes systematic variants (each of the first eight 32-bit header fields at 2^32-1, JSON numbers swapped / shifted, containers emptied, values retyped, block keys changed, documented neuronjson metadata fields with wrong types, paths cut after each segment), every valid control twice, and the maintenance requests (reload) after the batches; a request that outlives the watchdog is a violation only when the goroutine dump shows it parked for minutes with no goroutine left that could wake it (quiescence oracle), otherwise inconclusive.",
+ "C20": "The model-based mixed workload (well-formed by construction) runs under the same panic / liveness monitors; scenario probes replay well-formed request sequences that once hung or panicked; hostile generation includes systematic variants (each of the first eight 32-bit header fields at 2^32-1, JSON numbers swapped / shifted, containers emptied, values retyped, block keys changed, documented neuronjson metadata fields with wrong types, paths cut after each segment), every valid control twice, and the maintenance requests (reload) after the batches; a request that outlives the watchdog is a violation only when the goroutine dump shows it parked for minutes with no goroutine left that could wake it (quiescence oracle), otherwise inconclusive. Throttled requests (throttle=true), among them refused ones with right-length bodies, are followed by a throttled read that must not be answered 503 while nothing else is in flight.",
+ "C13": "Every second history reads elements before POST sync; a bulk scenario stores 1200 tagged elements with POST blocks and compares every tag view after the low-memory and the in-memory reload.",
+ "C14": "Two more operations: the unwritten octants of lower-resolution blocks arriving as simultaneous one-block POST blocks?downres=true requests, and a supervoxel written over two neighbouring blocks that is split inside the first.",
+ "C18": "Streams of 4095 to 100003 runs (thorough: up to 2^20+1) go through the streamed and the whole-buffer readers.",
 }
 NOT_BUILT = "check not built yet in this round (machinery in progress); see DESIGN.md section 3"
 ALL = ["C%02d" % i for i in range(1, 21)]
